@@ -32,6 +32,53 @@ class World:
             self._mesh = make_mesh(self.src, self.grid)
         return self._mesh
 
+    def sibling(self, grid, axmap):
+        """a world of the same kind for another grid class over the same inputs; axis a of the sibling is axis
+        axmap[a] of this world (embedding into fewer dimensions, axis permutation)"""
+        import copy as _copy
+        from .trace import AxisMappedSource
+        w2 = _copy.copy(self)
+        World.__init__(w2, grid)
+        w2.src = AxisMappedSource(self.src, axmap)
+        if self.symbolic:
+            w2.P = tuple(self.P[axmap[a]] for a in range(w2.nd))
+        w2._mesh = None
+        return w2
+
+    def extrude(self, arr, keep_axes, shape):
+        """array of `shape` that equals arr along keep_axes and is constant along the others"""
+        if self.symbolic:
+            snap = arr.snap()
+            return SymNDArray.from_fn(shape, (lambda idx: snap(tuple(idx[a] for a in keep_axes))), 'real', origin='extrude')
+        a = real_np.asarray(arr, dtype=float)
+        idx = [None] * len(shape)
+        for t, ax in enumerate(keep_axes):
+            idx[ax] = slice(None)
+        a2 = a[tuple(idx)]
+        return real_np.broadcast_to(a2, tuple(int(x) for x in shape)).copy()
+
+    def flip(self, arr, axis, negate=False):
+        """arr reversed along `axis` (optionally negated)"""
+        if self.symbolic:
+            snap = arr.snap()
+            n = I(arr.shape[axis])
+            sgn = -1 if negate else 1
+
+            def fn(idx):
+                j = list(idx)
+                j[axis] = n - 1 - I(idx[axis])
+                v = snap(tuple(j))
+                return -R.of(v) if negate else v
+            return SymNDArray.from_fn(arr.shape, fn, 'real', origin='flip')
+        a = real_np.flip(real_np.asarray(arr, dtype=float), axis).copy()
+        return -a if negate else a
+
+    def mirrored_mesh(self, axis):
+        """the same grid reflected along `axis`: faces f'[k] = -f[N-k]"""
+        fm = [None] * self.nd
+        fm[axis] = lambda f: self.flip(f, 0, negate=True)
+        return make_mesh(self.src, self.grid, facemap=fm)
+
     def scaled_mesh(self, facescale):
         return make_mesh(self.src, self.grid, facescale=facescale)
 
